@@ -28,6 +28,11 @@ static inline void __ipr_free(void* p) { free(p); }
 void* _Znwm(unsigned long n) { return __ipr_alloc(n); }            /* operator new(size_t)   */
 void _ZdlPv(void* p) { free(p); }                                   /* operator delete(void*) */
 
+/* forward_list::emplace_front / front as lowered by cxx2c: storage from __ipr_alloc, then linked; defined by the harness
+   (or by flmodel.h: head pointer only) */
+void __ipr_fl_push(void* list, void* node);
+void* __ipr_fl_front(void* list);
+
 _Bool nondet_bool(void);
 int nondet_int(void);
 unsigned nondet_uint(void);
